@@ -11,7 +11,11 @@ RULE = ("for every text parameter of every function: all lengths around each bou
         "start,length >= 0 in and out of the PAN; byte parameters of every length 0..40; the expected verdict comes from the documented domain written "
         "independently in this file; distinct = distinct driver lines")
 A = psec.mac.Algorithm
-HOSTILE = ["٣", "３", "²", "१", "\U0001d7d9", "+", "-", "_", " ", "\t", "\n", "\x00", "a", "F", "g", "é", "\ud800", ".", "/", ":", "①", "{", "}", "%"]
+HOSTILE = ["٣", "３", "²", "१", "\U0001d7d9", "+", "-", "_", " ", "\t", "\n", "\x00", "a", "F", "g", "é", "\ud800", ".", "/", ":", "①", "{", "}", "%",
+           # non-ASCII characters that a case mapping or a compatibility normalisation turns into ASCII hex digits / letters - one or
+           # SEVERAL of them (the ligature ff upper-cases to "FF", circled ten normalises to "10", the square "cd" to "cd"): what a
+           # validator admits when it runs after .upper() / .casefold() / normalize() instead of on the caller's string
+           "\ufb00", "\u00df", "\u2131", "\u2102", "\u2469", "\u33c5", "\u212a", "\u0131"]
 
 
 def asciidigits(s):
